@@ -767,7 +767,7 @@ fn run_kind3(drv: u64, prog: &[u64]) -> Result<Vec<u64>, BadCase> {
 
 // ---------------------------------------------------------------------------
 // kind 4: timing-dependent programs (oracle only)
-//   output: 4 sub completed extra_before_rt_drop extra_after anomalies
+//   output: sub completed extra_before_rt_drop extra_after anomalies
 
 fn poll_once<F: Future + ?Sized>(f: &mut Pin<Box<F>>) -> Poll<F::Output> {
     let (_a, w) = noop_cx();
@@ -1039,17 +1039,21 @@ fn run_kind4(sub: u64, drv: u64, a: u64, b: u64) -> Result<Vec<u64>, BadCase> {
     std::thread::sleep(Duration::from_millis(20));
     let extra_after = open_fds().iter().filter(|fd| !baseline0.contains(fd)).count() as u64;
     drop(dir);
-    Ok(vec![4, sub, completed, extra_before, extra_after, anomalies])
+    Ok(vec![sub, completed, extra_before, extra_after, anomalies])
 }
 
 fn run(case: &[u64]) -> Result<Vec<u64>, BadCase> {
-    match case.first() {
+    let body = match case.first() {
         Some(1) => run_kind1(&case[1..]),
         Some(2) if case.len() >= 3 => run_kind2(case[1], case[2], &case[3..]),
         Some(3) if case.len() >= 2 => run_kind3(case[1], &case[2..]),
         Some(4) if case.len() == 5 => run_kind4(case[1], case[2], case[3], case[4]),
         _ => Err(BadCase),
-    }
+    }?;
+    // every result line starts with `0 <kind>`
+    let mut out = vec![0, case[0]];
+    out.extend(body);
+    Ok(out)
 }
 
 fn main() {
